@@ -24,6 +24,11 @@
 (*                Means clause pins every centroid to sums/size exactly)   *)
 (* Event Bbd    (one filtering step with centroids cn[c]/cd[c])            *)
 (*   BbdStatus, Nearest, Counts, Sums, Distortion  (KMeansProps)           *)
+(*   offmax       > 0 for offset families: the library saw X + off, Q + off *)
+(*                (common offset per column up to 2^31); X, Q, cfx, c8 are  *)
+(*                shifted back, all clauses are shift-equivariant           *)
+(*   cls=refit    data sets for which Lloyd.tla reaches an empty cluster,   *)
+(*                refitted many times; mult = multiplicity of the outcome   *)
 (*   cls=small1d  fits on the scope of Lloyd.tla: the final (y, size) must  *)
 (*                be the end of some behaviour of that model, else DRIFT   *)
 (*   exp          present on events replayed from BbdFilter.tla: the       *)
@@ -60,12 +65,19 @@ InModelScope(e) == e.cls = "small1d" /\ e.k = 2 /\ <<e.X, e.maxIter>> \in ModelK
 ReachedByModel(e) == <<e.y, e.size>> \in ModelIdx[<<e.X, e.maxIter>>]
 
 ExactMaxN == 128
+(* Offset families (offmax > 0): the library worked on rows carrying a common
+   offset of up to 2^31 per column, where a centroid coordinate is only known
+   to about 2^-23; the exact predict clause is then applied to n <= 16 only
+   (a rational non-tie is at least 1/(8*8)^2 wide; the harness keeps d <= 3
+   and |q - c| <= 32 there).  Means, PredictFx and the filtering clauses are
+   shift-equivariant and are evaluated on the small integers as usual. *)
+ExactMaxNOffset == 16
 
-VARIABLES l, nbad, hits, nt, drift
-vars == <<l, nbad, hits, nt, drift>>
+VARIABLES l, nbad, hits, nt, drift, empties
+vars == <<l, nbad, hits, nt, drift, empties>>
 
 HitNames == {"KMFit", "FitLattice", "FitCont", "FitF32", "Means", "PredictFx", "PredictExact", "PredictTie",
-             "EmptyCluster", "Unconstrained", "FitNotOk", "FitModel",
+             "EmptyCluster", "Unconstrained", "FitNotOk", "FitModel", "FitOffset", "FitOffsetExact", "BbdOffset",
              "Bbd", "BbdTie", "BbdCoincident", "BbdEmpty", "BbdRational", "BbdModel", "Drift"}
 
 AllPositive(v) == \A c \in 1..Len(v) : v[c] > 0
@@ -77,7 +89,11 @@ TieSeen(T, cd2, ans) ==
         o # ans[i] + 1 /\ RatLeq(T[i][o], cd2[o], T[i][ans[i] + 1], cd2[ans[i] + 1])
 
 (* ------------------------------------------------------------------ KMFit *)
-ExactApplies(e) == e.exact /\ e.n <= ExactMaxN /\ AllPositive(e.size)
+ExactApplies(e) ==
+    /\ e.exact
+    /\ e.n <= (IF e.offmax = 0 THEN ExactMaxN ELSE ExactMaxNOffset)
+    /\ (e.offmax # 0 => e.d <= 3)
+    /\ AllPositive(e.size)
 
 (* first failing clause of a fit whose labels are already known to be in range;
    sums = ClusterSums(X, y, k, d) is computed once and handed down *)
@@ -106,6 +122,8 @@ FitTags(e) ==
          \cup (IF e.xs = 1 THEN {"FitCont"} ELSE {"FitLattice"})
          \cup (IF e.prec = 32 THEN {"FitF32"} ELSE {})
          \cup (IF ~AllPositive(e.size) THEN {"EmptyCluster"} ELSE {})
+         \cup (IF e.offmax # 0 THEN {"FitOffset"} ELSE {})
+         \cup (IF e.offmax # 0 /\ ExactApplies(e) THEN {"FitOffsetExact"} ELSE {})
          \cup (IF InModelScope(e) THEN {"FitModel"} ELSE {})
          \cup (IF InModelScope(e) /\ ~ReachedByModel(e) THEN {"Drift"} ELSE {})
          \cup (IF ExactApplies(e)
@@ -115,10 +133,17 @@ FitTags(e) ==
                ELSE {})
 
 (* -------------------------------------------------------------------- Bbd *)
+(* offset families: the tree was given rows + off; its sums were split exactly
+   into sumsHi * off + sums.  The offset part must be counts[c] * off. *)
+OffsetPartOK(e) ==
+    e.offmax # 0 =>
+        /\ ShapeOK(e.sumsHi, e.k, e.d)
+        /\ \A c \in 1..e.k : \A j \in 1..e.d : e.sumsHi[c][j] = e.counts[c]
+
 BbdClause2(e, T, cd2) ==
     IF ~NearestOK(T, cd2, e.member, e.n, e.k) THEN "Nearest"
     ELSE IF ~CountsOK(e.member, e.counts, e.n, e.k) THEN "Counts"
-    ELSE IF ~(e.sumsInt /\ SumsOK(e.X, e.member, e.sums, e.k, e.d)) THEN "Sums"
+    ELSE IF ~(e.sumsInt /\ SumsOK(e.X, e.member, e.sums, e.k, e.d) /\ OffsetPartOK(e)) THEN "Sums"
     ELSE IF ~(e.distOk /\ DistortionFxOK(T, cd2, e.n, e.distFx, e.dS)) THEN "Distortion"
     ELSE ""
 
@@ -143,6 +168,7 @@ BbdTags(e) ==
     \cup (IF \E c \in 1..e.k : e.cd[c] > 2 THEN {"BbdRational"} ELSE {})
     \cup (IF \E c \in 1..e.k : e.counts[c] = 0 THEN {"BbdEmpty"} ELSE {})
     \cup (IF TieSeen(SqTable(e.X, e.cn, e.cd), Sq(e.cd), e.member) THEN {"BbdTie"} ELSE {})
+    \cup (IF e.offmax # 0 THEN {"BbdOffset"} ELSE {})
     \cup (IF IsModelEvent(e) THEN {"BbdModel"} ELSE {})
     \cup (IF IsModelEvent(e) /\ ~AgreesWithModel(e) THEN {"Drift"} ELSE {})
 
@@ -156,6 +182,8 @@ Account(e, clause, tags) ==
     /\ hits' = [h \in HitNames |-> hits[h] + (IF h \in tags THEN 1 ELSE 0)]
     /\ nt' = IF clause = "" /\ tags \cap NonTrivialTags # {} THEN Append(nt, l) ELSE nt
     /\ drift' = IF "Drift" \in tags THEN Append(drift, l) ELSE drift
+    \* lines of the fits that PASSED (finite centroids etc.) and ended with a cluster without members
+    /\ empties' = IF clause = "" /\ "EmptyCluster" \in tags THEN Append(empties, l) ELSE empties
 
 (* the clause is an operator ARGUMENT, hence evaluated once per event *)
 AccountFit(e, clause) ==
@@ -171,7 +199,7 @@ Step ==
          [] e.ev = "Bbd" -> AccountBbd(e, BbdClause(e))
          [] OTHER -> Account(e, "unknown event", {})
 
-Init == /\ l = 1 /\ nbad = 0 /\ nt = <<>> /\ drift = <<>>
+Init == /\ l = 1 /\ nbad = 0 /\ nt = <<>> /\ drift = <<>> /\ empties = <<>>
         /\ hits = [h \in HitNames |-> 0]
 
 Next == Step
@@ -180,5 +208,5 @@ Spec == Init /\ [][Next]_vars
 (* printed exactly once, when the whole file has been consumed *)
 AtEnd == (l = Len(Rec) + 1) =>
             PrintT(<<"VERDICT", ToJson([consumed |-> l - 1, bad |-> nbad, hits |-> hits,
-                                        nontrivial |-> nt, drift |-> drift])>>)
+                                        nontrivial |-> nt, drift |-> drift, empties |-> empties])>>)
 =============================================================================
